@@ -418,7 +418,7 @@ def coqchk():
     """independent re-check of every compiled Properties module (and all they depend on)"""
     import subprocess
     ok, mlog = vlib.coq_make(timeout=7200)
-    mods = ["Synnax.Properties." + f[:-3] for f in sorted(os.listdir(os.path.join(vlib.COQ, "theories", "Properties")))
+    mods = ["Synnax.Properties." + f[:-2] for f in sorted(os.listdir(os.path.join(vlib.COQ, "theories", "Properties")))
             if f.endswith(".v") and os.path.exists(os.path.join(vlib.COQ, "theories", "Properties", f + "o"))]
     t = time.time()
     r = subprocess.run(["coqchk", "-silent", "-o", "-Q", "theories", "Synnax", *mods], cwd=vlib.COQ,
